@@ -87,7 +87,7 @@ func (c Config) Validate() Config {
 	}
 
 	// Clamp BackoffFactor to reasonable range
-	if validated.BackoffFactor < MinBackoffFactor {
+	if !(validated.BackoffFactor >= MinBackoffFactor) { // negated form also catches NaN
 		validated.BackoffFactor = MinBackoffFactor
 	} else if validated.BackoffFactor > MaxBackoffFactor {
 		validated.BackoffFactor = MaxBackoffFactor
